@@ -4,6 +4,7 @@ From Coq Require Import List String NArith ZArith Bool.
 Import ListNotations.
 From GMQ Require Import Broker.Model Proofs.BrokerFrames Proofs.BrokerQueueInv Proofs.BrokerCounts.
 Open Scope N_scope.
+From GMQ Require Import Broker.gen.BrokerGen.
 
 (* In EVERY reachable state, for every queue: the length counter (the number the broker reports as message-count)
    and the `ready` figure of the admin API both equal the true number of messages waiting in the queue. *)
@@ -59,3 +60,8 @@ Example C20_example :
               LMethod 1 1 (MPublish "" "q" false false); LHeader 1 1 8 0 false]) in
   snd (fst (handle_method cfg all_fixed s 1 1 (MQDeclare "q" false false false true false))) = [(1, 1, SQDeclareOk "q" 2 0)].
 Proof. vm_compute. reflexivity. Qed.
+
+(* the queue length every count is read from is changed through sync/atomic only - read off /repo on every run *)
+Theorem C20_generated_queue_length_atomic : queue_length_atomic = true.
+Proof. reflexivity. Qed.
+Print Assumptions C20_generated_queue_length_atomic.
